@@ -1135,7 +1135,7 @@ func ruleOneBatchPerNode(w *core.World, r *core.Report) {
 	}
 	var choose ssa.Instruction
 	for _, s := range core.Sites(f, false) {
-		if s.Instr.Parent() == f && strings.HasSuffix(s.Name, "Cluster).ChooseNodeWithCmd") {
+		if s.Instr.Parent() == f && (strings.HasSuffix(s.Name, "Cluster).ChooseNodeWithCmd") || returnsNodeFor(s)) {
 			choose = s.Instr
 		}
 	}
@@ -1403,4 +1403,13 @@ func ruleRedirectStaysWithItsRequest(w *core.World, r *core.Report) {
 		}
 	}
 	r.Check(n > 0, "nodePipeline.run/redirect-stays-with-its-request", f.Pos(), "the loop that fails the requests in flight was not found")
+}
+
+// returnsNodeFor: a routing call of the cluster object: (cmd, args...) in, the node (and an error) out.
+func returnsNodeFor(s core.Site) bool {
+	if s.Callee == nil || s.Callee.Signature.Results().Len() != 2 || !s.Callee.Signature.Variadic() {
+		return false
+	}
+	pt, ok := s.Callee.Signature.Results().At(0).Type().(*types.Pointer)
+	return ok && strings.HasSuffix(core.TypeName(pt.Elem()), "redisNode")
 }
